@@ -48,13 +48,13 @@ def gen_cases(ctx, tier):
     import corpus
     rng = ctx.rng
     cases = list(WITNESS)
-    ntree = 500 if tier == "quick" else 4000
+    ntree = 400 if tier == "quick" else 4000
     for i in range(ntree):
         tree = T.gen_tree(rng, maxtop=rng.choice([1, 2, 3, 5]), depth=3)
         cases.append({"kind": "tree", "tree": tree, "src": T.tree_css(tree)})
     items = [s for _, s in corpus.spec_inputs() if len(s.encode()) <= 3000]
     if tier == "quick":
-        items = rng.sample(items, min(1200, len(items)))
+        items = rng.sample(items, min(900, len(items)))
     for s in items:
         cases.append({"kind": "scss", "src": s})
     cases.extend(scss_cases(ctx, 300 if tier == "quick" else 3000))
